@@ -282,7 +282,7 @@ def d1_pairing(ctx):
         ok = isinstance(a, ast.List) and len(a.elts) == 2 and all(_idl_ref(e) for e in a.elts) and _idl_ref(a.elts[0])[1] == _idl_ref(a.elts[1])[1] \
             and _idl_ref(a.elts[0])[0] != _idl_ref(a.elts[1])[0]
         ctx.check(rule, 'obs.py:_covariance_element#intersection', ok, 'common configurations of the same replica of both observables', 'intersection of %s' % unparse(a), obs.loc(c))
-    ctx.floor('element-wise products of two tagged arrays', n_prod, 3)
+    ctx.floor('element-wise products of two tagged arrays', n_prod, 2)     # 3 on the reference tree; a weight computed once is used twice
 
     reduce_deltas_rules(ctx, obs, rule)
 
